@@ -5,7 +5,9 @@ from .. import common, gen_table as G, ref_forward as RF
 THEOREMS = ["Lou.Chain.insR_sorted", "Lou.Chain.find_first_le", "Lou.C05.addFwdMulti_inv", "Lou.C05.addRule_inv",
             "Lou.C05.compileEntry_inv", "Lou.C05.chain_sorted", "Lou.C05.walkChain_eq_find", "Lou.C05.go_spec",
             "Lou.C05.select_refines", "Lou.GenFacts.opcode_ranges",
-            "Lou.GenFacts.opcode_values_nodup"]
+            "Lou.GenFacts.opcode_values_nodup",
+            "Lou.C05Link.compile_fwdWF", "Lou.C05Link.compile_select_refines",
+]
 
 CLAIM = dict(
     text=("Kernel-checked: chain_sorted — for EVERY list of table entries of the modelled fragment (character definitions, "
@@ -21,7 +23,9 @@ CLAIM = dict(
           "Python reference of the documented algorithm (tools/lv/ref_forward.py, written from the property text) must "
           "agree with the implementation on cells, consumed input, positions and the back-off result for every generated "
           "table x string x capacity x {0, noContractions, dotsIO, noUndefined}; exhaustive small scope in the thorough tier."),
-    note=("select_refines is proved for the multi-character stage on tables satisfying FwdWF (resolved, sorted chains, raw-hash "
+    note=("compile_select_refines: for EVERY entry list of the fragment that the compile model accepts, select_refines holds of the compiled table "
+          "with no hypothesis left (compile_fwdWF derives FwdWF from compile_consistent of C12 and a mode-zero invariant). "
+          "select_refines is proved for the multi-character stage on tables satisfying FwdWF (resolved, sorted chains, raw-hash "
           "bucket membership, distinct keys, FoldFixed); chain_sorted delivers the first two clauses for every compiled entry "
           "list, the bucket/key/FoldFixed clauses are established for compiled tables in C12 (compile_consistent). The equality "
           "of the whole engine with the reference is established by differential testing, not by a theorem. capsletter is outside "
